@@ -221,6 +221,11 @@ def classify(res, expect_success: bool, fault: str):
         return f'valid-input-refused:{info["type"]}', info, info['class'].lower()
     if not info['message'].strip():
         return f'error-without-message:{info["type"]}', dict(info, fault=fault), info['class'].lower()
+    if info['class'] != 'LIBRARY':
+        # a deliberate `raise ValueError(...)` is diagnosed, but it is not one of the library's
+        # own error types, which is what the statement promises for every listed fault
+        return f'fault-refused-with-foreign-error-type:{info["type"]}@{info["where"]}', \
+            dict(info, fault=fault), info['class'].lower()
     return None, {}, info['class'].lower()
 
 
@@ -294,8 +299,9 @@ def main(tier: str) -> int:
              'port name, port under both semantics, ALL+set, mixed provides, uncovered port, six '
              'invalid multi-client settings), each of which must raise a library error; '
              'evaluations = builds; distinct = digest of (document, configuration)',
-        assumptions=['TypeError/ValueError raised by a `raise` statement inside dznpy with a '
-                     'message count as diagnosed (e.g. multi-client on an STS port)',
+        assumptions=['library error types = AdvShellError, MultiClientCfgError, FindError, '
+                     'DznJsonError, NamespaceIdsTypeError, CppGenError and their subclasses; a '
+                     'deliberate TypeError/ValueError from inside dznpy is not one of them',
                      'faults the statement does not list (release event naming an out-event, '
                      'claim == release) are not generated',
                      'a worker watchdog (600 s per 4 models) firing is inconclusive, not a verdict'])
